@@ -130,9 +130,15 @@ Archive::Shape Deserializer::deserializeShape(char tag)
     {
         CHECK_POS();
 
-        // Check for END_OF_ITEM as a demarcation between Shapes
-        const uint8_t op_ = deserializeBytes<uint8_t>();
-        if (op_ == Serializer::END_OF_ITEM)
+        // Check for END_OF_ITEM as a demarcation between Shapes.
+        // Only peek: otherwise this byte is the opening quote of the
+        // variable's name, which deserializeString needs to see.
+        if (in.peek() == Serializer::END_OF_ITEM)
+        {
+            in.get();
+            break;
+        }
+        else if (in.eof())
         {
             break;
         }
